@@ -31,6 +31,7 @@ type half struct {
 	timer    *time.Timer
 	written  int64
 	read     int64
+	stalled  bool // the receiver's window is closed: writes block (until their deadline) instead of being queued
 }
 
 func newHalf() *half {
@@ -96,9 +97,26 @@ func (h *half) setDeadline(t time.Time) {
 	h.mu.Unlock()
 }
 
-func (h *half) write(p []byte) (int, error) {
+func (h *half) write(p []byte, deadline func() time.Time) (int, error) {
 	h.mu.Lock()
 	defer h.mu.Unlock()
+	var timer *time.Timer
+	for h.stalled && !h.wclosed && !h.rclosed && !h.reset {
+		d := deadline()
+		if !d.IsZero() && !time.Now().Before(d) {
+			return 0, &net.OpError{Op: "write", Net: "tcp", Err: timeoutError{}}
+		}
+		if timer != nil {
+			timer.Stop()
+		}
+		if !d.IsZero() {
+			timer = time.AfterFunc(time.Until(d), func() { h.mu.Lock(); h.cond.Broadcast(); h.mu.Unlock() })
+		}
+		h.cond.Wait()
+	}
+	if timer != nil {
+		timer.Stop()
+	}
 	if h.wclosed {
 		return 0, net.ErrClosed
 	}
@@ -134,7 +152,16 @@ func (c *Conn) Write(p []byte) (int, error) {
 	if !d.IsZero() && !time.Now().Before(d) {
 		return 0, &net.OpError{Op: "write", Net: "tcp", Err: timeoutError{}}
 	}
-	return c.out.write(p)
+	return c.out.write(p, func() time.Time { c.wmu.Lock(); defer c.wmu.Unlock(); return c.wdeadline })
+}
+
+// StallIncoming closes (or reopens) this end's receive window: while it is closed the peer's writes block until their
+// write deadline instead of being queued.
+func (c *Conn) StallIncoming(on bool) {
+	c.in.mu.Lock()
+	c.in.stalled = on
+	c.in.cond.Broadcast()
+	c.in.mu.Unlock()
 }
 func (c *Conn) Close() error {
 	c.closeOnce.Do(func() {
@@ -187,6 +214,9 @@ func (c *Conn) SetWriteDeadline(t time.Time) error {
 	c.wmu.Lock()
 	c.wdeadline = t
 	c.wmu.Unlock()
+	c.out.mu.Lock()
+	c.out.cond.Broadcast() // a blocked write looks at the new deadline
+	c.out.mu.Unlock()
 	return nil
 }
 
